@@ -587,3 +587,142 @@ Proof.
   { apply (run_words_ok 8 9 10 ex_ops ex_state); [intros HH; discriminate HH|reflexivity|exact ex_run]. }
   split; [exact H|]. exact (hdr_fits_words 1 ex_state ex_tree [2] 9 ex_inv H).
 Qed.
+
+(* ---- hash set: a live entry never moves to another record (Hash/Stable.v),
+   and the reader's verdict read backwards (Hash/ReaderSound.v) ---- *)
+From Stevia Require Import Hash.Stable Hash.ReaderSound.
+
+(* Insertion: every live slot stays live and keeps its value; when the
+   insertion succeeds, the new member is stored in the slot handed out by
+   [add_node] (the free-list head word), which was not live, and no other slot
+   becomes live. *)
+Theorem C10_hash_never_moves_insert : forall (hash64 : Z -> N) s v s' b,
+  hinv hash64 s -> hinsert hash64 s v = Ok (s', b) ->
+  (forall i, In i (hslots s) -> In i (hslots s') /\ Hash.Mem.val (hnodes s') i = Hash.Mem.val (hnodes s) i) /\
+  (b = true ->
+   exists k, k = hflh s /\ (exists s1, add_node s v = Ok (s1, k)) /\
+     ~ In k (hslots s) /\ In k (hslots s') /\ Hash.Mem.val (hnodes s') k = v /\
+     forall i, In i (hslots s') -> i = k \/ In i (hslots s)).
+Proof. exact hinsert_stable. Qed.
+Print Assumptions C10_hash_never_moves_insert.
+
+(* Removal: only the slot of the removed value leaves; every other live slot
+   stays live and keeps its value. *)
+Theorem C10_hash_never_moves_remove : forall (hash64 : Z -> N) s v s',
+  hinv hash64 s -> hremove hash64 s v = Ok (s', true) ->
+  exists k, In k (hslots s) /\ Hash.Mem.val (hnodes s) k = v /\ ~ In k (hslots s') /\
+    forall i, In i (hslots s) -> i <> k ->
+      In i (hslots s') /\ Hash.Mem.val (hnodes s') i = Hash.Mem.val (hnodes s) i.
+Proof. exact hremove_stable. Qed.
+Print Assumptions C10_hash_never_moves_remove.
+
+(* ... and the slot that leaves is the new free-list head (so the next
+   allocation hands it out again); nothing else changes class *)
+Theorem C10_hash_never_moves_remove_flh : forall (hash64 : Z -> N) s v s',
+  hinv hash64 s -> hremove hash64 s v = Ok (s', true) ->
+  In (hflh s') (hslots s) /\ Hash.Mem.val (hnodes s) (hflh s') = v /\ ~ In (hflh s') (hslots s') /\
+  (forall i, In i (hslots s) -> i <> hflh s' ->
+     In i (hslots s') /\ Hash.Mem.val (hnodes s') i = Hash.Mem.val (hnodes s) i) /\
+  (forall i, In i (hslots s') -> In i (hslots s) /\ i <> hflh s').
+Proof. exact hremove_stable_flh. Qed.
+Print Assumptions C10_hash_never_moves_remove_flh.
+
+(* One step of the operation language: a value that is still a member after
+   the step is in the same record as before.  (Members are pairwise distinct
+   under the invariant, so "the slot of w" is well defined: [hslot_unique].) *)
+Theorem C10_hash_never_moves_step : forall (hash64 : Z -> N) s o s' out,
+  hinv hash64 s -> hstep_c hash64 s o = Ok (s', out) ->
+  forall i w, In i (hslots s) -> Hash.Mem.val (hnodes s) i = w -> In w (habs s') ->
+    In i (hslots s') /\ Hash.Mem.val (hnodes s') i = w.
+Proof. exact hstep_stable. Qed.
+Print Assumptions C10_hash_never_moves_step.
+
+Theorem C10_hash_slot_unique : forall (hash64 : Z -> N) s i j,
+  hinv hash64 s -> In i (hslots s) -> In j (hslots s) ->
+  Hash.Mem.val (hnodes s) i = Hash.Mem.val (hnodes s) j -> i = j.
+Proof. exact hslot_unique. Qed.
+Print Assumptions C10_hash_slot_unique.
+
+(* Along a history from the initial state, between any two of its points: a
+   value that is a member after every prefix of the operations in between is,
+   at the end, in the record it was in at the start. *)
+Theorem C10_hash_never_moves_history : forall (hash64 : Z -> N) cap ops0 ops s s',
+  cap + 1 < 2 ^ 32 ->
+  hexec hash64 (hinit_c cap cap) ops0 = Ok s -> hexec hash64 s ops = Ok s' ->
+  forall i w, In i (hslots s) -> Hash.Mem.val (hnodes s) i = w ->
+  (forall ops1 ops2 sm, ops = ops1 ++ ops2 -> hexec hash64 s ops1 = Ok sm -> In w (habs sm)) ->
+  In i (hslots s') /\ Hash.Mem.val (hnodes s') i = w.
+Proof. exact hash_never_moves_reachable. Qed.
+Print Assumptions C10_hash_never_moves_history.
+
+(* the same with a syntactic premise: the value is not removed in between *)
+Theorem C10_hash_never_moves_no_remove : forall (hash64 : Z -> N) ops s s',
+  hinv hash64 s -> hexec hash64 s ops = Ok s' ->
+  forall i w, In i (hslots s) -> Hash.Mem.val (hnodes s) i = w -> ~ In (HRemove w) ops ->
+  In i (hslots s') /\ Hash.Mem.val (hnodes s') i = w /\ In w (habs s').
+Proof. exact hexec_stable_no_remove. Qed.
+Print Assumptions C10_hash_never_moves_no_remove.
+
+(* The reader's verdict read backwards: on ANY bytes, if the independent
+   reader answers [Some d] with [hd_wf d = true], the decoded state has the
+   structure the reader reports.  (The reader does not check that the free
+   list ends at the cursor, nor capacity + 1 < 2^32; with those two added the
+   invariant follows - [C10_hash_reader_sound_inv].) *)
+Theorem C10_hash_reader_sound : forall (hash64 : Z -> N) vty bs d,
+  hdecode_doc vty hash64 bs = Some d -> hd_wf d = true ->
+  exists s, hdecode vty bs = Some s /\
+    hd_hdr d = [hsize s; hcap s; hflh s; hseq s] /\
+    Hash.Mem.len (hnodes s) = hcap s /\ 1 <= hseq s <= hcap s + 1 /\
+    length (hd_buckets d) = N.to_nat (hcap s) /\
+    (forall b, b < hcap s ->
+       lseg (hnodes s) (bkt (hnodes s) b) (hd_chain d b) 0 /\
+       forall i v, In (i, v) (nth (N.to_nat b) (hd_buckets d) []) ->
+         v = Hash.Mem.val (hnodes s) i /\ (hash64 v mod 2 ^ 32) mod hcap s = b) /\
+    hd_live d = hslots s /\ hd_members d = hmembers s /\
+    hd_members d = map (Hash.Mem.val (hnodes s)) (hd_live d) /\
+    NoDup (hd_live d) /\ NoDup (hd_members d) /\
+    hsize s = N.of_nat (length (hd_live d)) /\
+    (exists t, lseg (hnodes s) (hflh s) (hd_free d) t) /\
+    (forall i, In i (hd_free d) -> Hash.Mem.val (hnodes s) i = 0%Z) /\
+    (forall i, In i (hd_never d) <-> 1 <= i <= hcap s /\ hseq s <= i) /\
+    (forall i, In i (hd_never d) -> nxt (hnodes s) i = 0 /\ Hash.Mem.val (hnodes s) i = 0%Z) /\
+    NoDup (hd_live d ++ hd_free d ++ hd_never d) /\
+    (forall i, In i (hd_live d ++ hd_free d ++ hd_never d) <-> 1 <= i <= hcap s) /\
+    (forall i, In i (hd_live d ++ hd_free d) <-> 1 <= i < hseq s) /\
+    N.of_nat (length (hd_live d) + length (hd_free d)) + 1 = hseq s.
+Proof. exact hd_wf_sound. Qed.
+Print Assumptions C10_hash_reader_sound.
+
+Theorem C10_hash_reader_reflect : forall (l : list N) (m : list Z),
+  (hnodupb l = true <-> NoDup l) /\ (znodupb m = true <-> NoDup m).
+Proof. exact (fun l m => conj (hnodupb_iff l) (znodupb_iff m)). Qed.
+Print Assumptions C10_hash_reader_reflect.
+
+Theorem C10_hash_reader_sound_inv : forall (hash64 : Z -> N) vty bs d s,
+  hdecode_doc vty hash64 bs = Some d -> hd_wf d = true -> hdecode vty bs = Some s ->
+  lseg (hnodes s) (hflh s) (hd_free d) (hseq s) -> hcap s + 1 < 4294967296 ->
+  hinv_g hash64 s (hd_chain d) (hd_free d) /\ live s (hd_chain d) = hd_live d.
+Proof. exact hd_wf_hinv. Qed.
+Print Assumptions C10_hash_reader_sound_inv.
+
+(* ---- example: constant hash (everything collides in bucket 0), capacity 4:
+   insert 5, 7, 9 (slots 1, 2, 3); remove 7; insert 11.  5 and 9 are where
+   they were, 11 sits in the record 7 had. ---- *)
+Example C10_hash_never_moves_example :
+  let h := fun _ : Z => 0 in
+  exists s3 s4 s5,
+    hexec h (hinit_c 4 4) [HInsert 5; HInsert 7; HInsert 9]%Z = Ok s3 /\
+    hexec h s3 [HRemove 7]%Z = Ok s4 /\ hexec h s4 [HInsert 11]%Z = Ok s5 /\
+    hslots s3 = [3; 2; 1] /\ map (hslot_of s3) [5; 7; 9; 11]%Z = [Some 1; Some 2; Some 3; None] /\
+    hslots s4 = [3; 1] /\ map (hslot_of s4) [5; 7; 9; 11]%Z = [Some 1; None; Some 3; None] /\
+    hflh s4 = 2 /\
+    hslots s5 = [2; 3; 1] /\ map (hslot_of s5) [5; 7; 9; 11]%Z = [Some 1; None; Some 3; Some 2].
+Proof. cbv zeta. eexists _, _, _. repeat (split; [vm_compute; reflexivity|]). vm_compute; reflexivity. Qed.
+
+(* the clause the reader leaves unchecked matters: a free-list head word that
+   does not point at the cursor while nothing is recycled passes the reader
+   but is not a state of the invariant *)
+Example C10_hash_reader_not_inv :
+  (exists d, hdecode_doc rs_u32 (fun _ => 0) (hencode rs_u32 rs_bad) = Some d /\ hd_wf d = true) /\
+  ~ hinv (fun _ => 0) rs_bad.
+Proof. exact hd_wf_not_hinv. Qed.
